@@ -650,8 +650,9 @@ func c07Probes(r *hx.Result, rng *hx.Rng) error {
 		rp.corrState()
 		rp.close()
 	}
-	// (3) BlTxID = 0 beyond the first tx: the supplied zero BlRoot passes the check, the STORED header keeps whatever
-	// BlRoot the pooled Tx object held (performPrecommit assigns tx.header.BlRoot only when blTxID > 0)
+	// (3) BlTxID = 0 beyond the first tx: the supplied zero BlRoot passes the check and the STORED header must carry it too
+	// (before the repair of performPrecommit, which assigned tx.header.BlRoot only when blTxID > 0, the stored header kept
+	// whatever BlRoot the pooled Tx object held: C07:ReplicateTx:stale-blroot-stored-when-bltxid-zero, stays armed)
 	{
 		r.NextCase()
 		rp, err := c07OpenReplica(r, p, false, true, 8)
@@ -676,8 +677,9 @@ func c07Probes(r *hx.Result, rng *hx.Rng) error {
 		rp.corrState()
 		rp.close()
 	}
-	// (5) the same defect with GENUINE exports only: tx 1 and 2 precommitted, both discarded, tx 1 delivered again:
-	// it is stored with the BlRoot of tx 2 (left in the pooled Tx), its Alh is not the primary's, tx 2 is then refused
+	// (5) the same with GENUINE exports only: tx 1 and 2 precommitted, both discarded, tx 1 delivered again: the replica
+	// must hold the primary's tx 1 and accept tx 2 (before the repair tx 1 was stored with the BlRoot of tx 2, left in the
+	// pooled Tx: its Alh was not the primary's and tx 2 was refused)
 	{
 		r.NextCase()
 		rp, err := c07OpenReplica(r, p, false, true, 8)
@@ -698,6 +700,12 @@ func c07Probes(r *hx.Result, rng *hx.Rng) error {
 				map[string]interface{}{"primary": p.label})
 		} else if strings.HasPrefix(out.ans, "ok ") {
 			r.Count("probe.stale-blroot.genuine-tx1-intact")
+			out2 := rp.deliver(p.exp[2], false)
+			r.Count("probe.stale-blroot.successor-" + out2.ans)
+			r.OracleChecks++
+			if !strings.HasPrefix(out2.ans, "ok ") || out2.hdr.Alh() != p.alhs[2] {
+				r.Fail("C07:replica:history-differs", fmt.Sprintf("re-replication from genesis: tx 1 restored, but ReplicateTx(tx2) answers %s", out2.ans), map[string]interface{}{"primary": p.label})
+			}
 		}
 		rp.corrState()
 		rp.close()
